@@ -54,7 +54,7 @@ REG['C03'] = {
     'V': [
         dict(id='c03_month_step', template='verus/c03_month_step.rs', twin_quick=True,
              twin=[('r.ord() == self.ord() + n,', 'r.ord() == self.ord() + n + 1,')],
-             clause='LunarMonth::next moves the month ordinal by exactly n (any leap table); get_months lists ordinals mb(y)..mb(y)+msize(y)-1; from_ym never refused',
+             clause='LunarMonth::next moves the month ordinal by exactly n (any leap table); get_months lists ordinals mb(y)..mb(y)+msize(y)-1; get_days lists days 1..count in order; from_ym / from_ymd never refused',
              paired_leaf=[dict(id='c03_step_search', check='c03_month_step', range=(0, 9999), chunks=32)]),
     ],
     'L': [
@@ -203,7 +203,7 @@ REG['C13'] = {
         dict(id='c01_k7_lengths', fn='SolarMonth::get_day_count / SolarYear::get_day_count', clause='== calendar spec'),
     ],
     'V': [
-        dict(id='c03_month_step', template='verus/c03_month_step.rs', clause='LunarYear::get_months lists exactly ordinals mb(y)..mb(y)+msize(y)-1 in order'),
+        dict(id='c03_month_step', template='verus/c03_month_step.rs', clause='LunarYear::get_months lists exactly ordinals mb(y)..mb(y)+msize(y)-1 in order; LunarMonth::get_days lists exactly days 1..day_count of the month in order'),
     ],
     'L': [
         dict(id='c13_solar', check='c13_solar', range=(1, 9999), chunks=64, exhaustive=True, domain='every civil year/month', clause='day-of-year and year length agree with the month lists'),
@@ -270,14 +270,14 @@ REG['C09'] = {
 REG['C14'] = {
     'level': 'proof',
     'design_ref': '5/C14',
-    'technique': 'Verus on SolarWeek::next extracted verbatim (both loops) + exhaustive execution of the week contract over every civil month x 7 week starts and every lunar month',
+    'technique': 'Verus on SolarWeek::next and LunarWeek::next extracted verbatim (both loops each) + exhaustive execution of the week contract over every civil month x 7 week starts and every lunar month',
     'level_text': 'Deductive part: SolarWeek::next moves the first day by exactly 7n for every week, every n and any month-length / first-weekday tables consistent with consecutive months (Verus, real loops). Leaf part (exhaustive execution): for every civil month 0001-02..9999-11 and every lunar month, 7 week starts, all indices: count == number of rows, first day on the chosen weekday at day1 + 7*index - offset, 7 consecutive days, coverage, refusal of index == count; week of a date contains it; index in year.',
-    'level_note': 'week count uses an f64 ceil (outside Verus): its contract ceil((offset+len)/7) is a leaf checked for every month; LunarWeek::next mirrors SolarWeek::next and is covered by execution only',
+    'level_note': 'week count uses an f64 ceil (outside Verus): its contract ceil((offset+len)/7) is a leaf checked for every month; LunarWeek::next is verified over an abstract tiling lunar month table (L-NEW)',
     'functions': ['SolarWeek::next', 'SolarMonth::get_week_count (leaf)', 'SolarWeek::new / get_first_day / get_days / get_index_in_year (leaf)', 'SolarDay::get_solar_week (leaf)', 'LunarWeek::* (leaf)', 'LunarMonth::get_week_count (leaf)'],
     'V': [
         dict(id='c14_week_step', template='verus/c14_week_step.rs', twin_quick=True,
              twin=[('r.first() == self.first() + 7 * n,', 'r.first() == self.first() + 7 * n + 7,')],
-             clause='SolarWeek::next: the first day moves by exactly 7n',
+             clause='SolarWeek::next and LunarWeek::next: the first day moves by exactly 7n; from_ym never refused',
              paired_leaf=[dict(id='c14_search', check='c14_solar_weeks', range=(1, 9999), chunks=32)]),
     ],
     'L': [
